@@ -55,6 +55,26 @@ CHECKS = {
     technique='TLA+/TLC: exhaustive design run of the merge-kernel model WaveEval.tla; batched trace validation of the real kernel on the complete configuration domain (KernelT.tla) and of WaveSim/WaveSimCuda on random circuits (WaveSimT.tla); kernel conformance with the model',
     text='The kernel model (one step per loop iteration, identical case split incl. pulse filtering and overflow) satisfies Functional/WithinCap for every configuration of its bounds. The REAL wave_eval_cpu is run on that complete domain (17 424 configurations; thorough adds the 247 808 polarity-dependent ones) and on seeded random configurations (all 33 tables, 1..4 inputs, non-monotone inputs, capacities 4/8/16); TLC checks on its outputs that the waveform starts at the function of the initial values and ends by parity at the function of the final values, also after overflow, inside its capacity. At circuit level every line waveform and the captured initial/final values of WaveSim and WaveSimCuda (random circuits incl. parity-heavy ones, grid and off-grid delays, uniform and per-line capacities, multi-transition inputs, c_reuse/strip_forks variants) are validated against Netlist.Eval of the inputs\' initial/final values.',
     note='Non-negative finite delays; capacities positive multiples of 4; input waveforms of at most 3 entries; GPU path = kernels through MockCuda. Interface-cut convention. Trusted: TLC, JSON reader, harness projection and time encoding.'),
+ 'C04': dict(
+    cat='model_checking', ref='DESIGN.md §4 C04, §3 (WaveProps, WaveEval, KernelT, WaveSimT)',
+    technique='TLA+/TLC: design run of the kernel model (Window, EdgeIsInputPlusDelay, Monotone); trace validation of the real kernel on the complete configuration domain (KernelT.tla) and of circuit runs incl. shifted/scaled re-runs (WaveSimT.tla, STA computed by the spec)',
+    text='For every line waveform and s[4]/s[5] of the real WaveSim/WaveSimCuda on random circuits, grid delays (polarity dependent and independent) and multi-transition inputs, TLC checks membership in the static-timing window that the SPECIFICATION computes from structure, delays and the actual input transition times; each case is re-run with all inputs shifted and with all times and delays scaled by 2^k and must yield exactly the shifted/scaled waveforms; timestamps strictly increase under polarity-independent delays; all observed times are grid points. At kernel level the same formulas (plus: every output edge = an input edge + one of that line\'s delay entries) are checked on the complete domain of the bounded model and on random configurations; the model itself is checked exhaustively.',
+    note='Times on an integer grid (|t| < 2^20: float32 shift/scale exact). Zero fork-input delays with strip_forks. Trusted: TLC, JSON reader, harness projection and time encoding.'),
+ 'C05': dict(
+    cat='model_checking', ref='DESIGN.md §4 C05, §3 (KernelT.Abstracts8, WaveSimT.Abstracts8, LogicLaws)',
+    technique='TLA+/TLC: trace validation of paired runs of the real WaveSim and 8-valued LogicSim (WaveSimT.Abstracts8); kernel-level abstraction relation on the complete configuration domain (KernelT.Abstracts8); algebra laws',
+    text='Implementation against implementation on the same circuit, delays and {0,1,R,F} stimulus with random option settings of both simulators: the timing simulator\'s captured initial/final values must equal the components of the 8-valued result, and wherever that is a plain 0/1 the waveform must have no transition. At kernel level TLC checks, for the real kernel\'s output on the complete domain of the bounded model and on random configurations with all 33 tables, that the 8-valued abstraction (initial, final, any transition) of the produced waveform is predicted by the documented 8-valued operator applied to the abstractions of the inputs - the reason the relation composes through circuits.',
+    note='Stimuli with at most one transition per input. Trusted: TLC, JSON reader, harness projection.'),
+ 'C06': dict(
+    cat='model_checking', ref='DESIGN.md §4 C06, §3 (OptsT)',
+    technique='TLA+/TLC: validation of recorded reference/variant run pairs of the real simulators (OptsT.tla: per-lane equality of result digests, memory digests, untouched lanes)',
+    text='Per circuit and stimulus a reference run and variant runs over {WaveSim, WaveSimCuda} x {c_reuse} x {strip_forks} x more allocated lanes x permuted lanes x c_prop(sims=k) (lanes >= k of c untouched) x delay dataset chosen globally (mode 0) or per lane (mode 1) versus the run with that dataset alone, finite capture times included; LogicSim in all three logics across options, batch sizes, permutations and the callback path. TLC requires bit-identical per-lane results (raw bytes of s[3..7], s[10] / s[1]) and identical signal memory where the layouts coincide, and names the failing variant.',
+    note='Zero delay on fork inputs; modes 0/1; sd = 0; GPU path through MockCuda. Trusted: TLC, JSON reader, SHA-1 digests of raw array bytes.'),
+ 'C13': dict(
+    cat='model_checking', ref='DESIGN.md §4 C13, §3 (WaveSimT.CaptureFaithful/OvlClearMeansExact/CountsMatch, KernelT.CountsMatch)',
+    technique='TLA+/TLC: trace validation of capture results and accumulators of the real simulators against their own waveforms (WaveSimT.tla); kernel switching counts on the complete configuration domain (KernelT.tla)',
+    text='For random circuits (incl. parity-heavy ones that overflow), multi-transition inputs, capacities 4/8, capture times on and between grid points and TMAX, random accumulation-control tables, CPU and mock-GPU capture: TLC checks s[3..7], s[10] against what the output waveform encodes, that an output with clear overflow indicator has exactly the waveform of the re-run with capacity 64, and that abuf equals the weighted count of rising/falling transitions of the produced waveforms per accumulator and lane. Kernel: returned counts = transitions of the produced waveform for the complete domain of the bounded model and random configurations.',
+    note='sd = 0. Capacity 64 stands for unlimited (checked: no marker in that run). Trusted: TLC, JSON reader, harness projection and time encoding.'),
  'C07': dict(
     cat='model_checking', ref='DESIGN.md §4 C07, §3 (Schedule, ThreadOrder, SchedReplay)',
     technique='TLA+/TLC: model run of Schedule.tla on the published schedule (all Begin/End interleavings for narrow levels, level-wise static form for all); TLC-simulated thread orders (ThreadOrder.tla) replayed into the real simulators, judged by SchedReplay.tla',
